@@ -332,7 +332,7 @@ func (vc *FnVC) enterBlock(fr *frame, b *ssa.BasicBlock) *state {
 	for _, c := range li.invs {
 		parts := splitConj(c.E, vc.eng.db, 0)
 		for k, pe := range parts {
-			t := vc.evalBool(fr, st, vc.old, pe, nil)
+			t := vc.evalBool(fr, st, vc.old, pe, map[string]val{"iter": {t: "0", typ: tMathInt}})
 			desc := fmt.Sprintf("loop%d:%s", li.ord, c.Src)
 			if len(parts) > 1 {
 				desc = fmt.Sprintf("loop%d:%s/%d", li.ord, shorten(c.Src, 48), k+1)
@@ -388,14 +388,17 @@ func (vc *FnVC) enterBlock(fr *frame, b *ssa.BasicBlock) *state {
 			vc.assume("true", vc.frameFact(hs.heap[h], vc.hget(st, h), li.frameObjs, st.alloc))
 		}
 	}
+	li.iter = vc.freshConst("iter", "Int")
+	vc.assume("true", fmt.Sprintf("(>= %s 0)", li.iter))
+	iv := map[string]val{"iter": {t: li.iter, typ: tMathInt}}
 	for _, c := range li.invs {
-		t := vc.evalBool(fr, hs, vc.old, c.E, nil)
+		t := vc.evalBool(fr, hs, vc.old, c.E, iv)
 		vc.assume(hs.reach, t)
 	}
 	li.headSt = hs.clone()
 	li.variant = nil
 	for _, c := range li.decs {
-		v := vc.evalInt(fr, hs, vc.old, c.E, nil)
+		v := vc.evalInt(fr, hs, vc.old, c.E, iv)
 		li.variant = append(li.variant, vc.define("variant", "Int", v+"                                        "))
 	}
 	return hs
@@ -429,10 +432,11 @@ func (vc *FnVC) addEdge(fr *frame, from, to *ssa.BasicBlock, cond string, st *st
 		li := fr.loops[to]
 		bst := st.clone()
 		bst.reach = cond
+		iv := map[string]val{"iter": {t: fmt.Sprintf("(+ %s 1)", li.iter), typ: tMathInt}}
 		for _, c := range li.invs {
 			parts := splitConj(c.E, vc.eng.db, 0)
 			for k, pe := range parts {
-				t := vc.evalBool(fr, bst, vc.old, pe, nil)
+				t := vc.evalBool(fr, bst, vc.old, pe, iv)
 				desc := fmt.Sprintf("loop%d:%s", li.ord, c.Src)
 				if len(parts) > 1 {
 					desc = fmt.Sprintf("loop%d:%s/%d", li.ord, shorten(c.Src, 48), k+1)
@@ -441,7 +445,7 @@ func (vc *FnVC) addEdge(fr *frame, from, to *ssa.BasicBlock, cond string, st *st
 			}
 		}
 		for i, c := range li.decs {
-			v := vc.evalInt(fr, bst, vc.old, c.E, nil)
+			v := vc.evalInt(fr, bst, vc.old, c.E, iv)
 			vc.oblige("variant", fmt.Sprintf("loop%d:%s", li.ord, c.Src), cond, fmt.Sprintf("(and (>= %s 0) (< %s %s))", v, v, li.variant[i]), []string{"C01"}, fmt.Sprintf("%s:%d", c.File, c.Line))
 		}
 		if len(li.decs) == 0 {
